@@ -92,9 +92,13 @@ def report(hdir, outp=None, bindir=None):
     for f in glob.glob(os.path.join(hdir, "*.hits")):
         b = os.path.basename(f).rsplit(".", 2)[0]
         by_exe.setdefault(b, []).append(f)
-    total = {}      # (obj, sec, off) -> [hit, text, label]
+    total = {}      # (obj, sec, off, normalised text) -> [hit, text, label]
     engines = {}
-    for b, files in sorted(by_exe.items()):
+    norm = lambda t: re.sub(r"\b[0-9a-f]{4,}(?= <)", "", re.sub(r"-?0x[0-9a-f]+\(%rip\)", "(%rip)", t.split("#")[0])).strip()     # link-layout dependent parts out
+    # the default build first; an instruction of another library build (fips, noparam, ...) that is the same instruction at the same place of
+    # the same object adds to it (the assembly objects are the same code in every build), anything else is listed under "<object> [<variant>]"
+    order = sorted(by_exe.items(), key=lambda kv: ("-".join(kv[0].split("-")[1:-1]) != "plain", kv[0]))
+    for b, files in order:
         exe = os.path.join(bindir, b)
         if not os.path.exists(exe + ".insn"):
             print("no .insn for", b, file=sys.stderr)
@@ -102,17 +106,20 @@ def report(hdir, outp=None, bindir=None):
         ins = disasm(exe)
         n = len(ins)
         acc = bytearray(n)
+        used = 0
         for f in files:
             d = open(f, "rb").read()
             if len(d) != n:
                 continue
+            used += 1
             acc = bytearray(x | y for x, y in zip(acc, d))
         syms = labels(exe)
         saddr = [s[0] for s in syms]
-        variant = "-".join(b.split("-")[1:-1])      # <engine>-<variant>-<hash>: objects of different library builds are different code
+        variant = "-".join(b.split("-")[1:-1])      # <engine>-<variant>-<hash>
         for (a, t, (lo, hi, sec, obj)), h in zip(ins, acc):
-            obj = obj if variant == "plain" else "%s [%s]" % (obj, variant)
-            k = (obj, sec, a - lo)
+            k = (obj, sec, a - lo, norm(t))
+            if variant != "plain" and k not in total:
+                k = ("%s [%s]" % (obj, variant), sec, a - lo, norm(t))
             e = total.get(k)
             if e is None:
                 j = bisect.bisect_right(saddr, a) - 1
@@ -120,9 +127,9 @@ def report(hdir, outp=None, bindir=None):
                 total[k] = [1 if h else 0, t, lab]
             elif h:
                 e[0] = 1
-        engines[b] = dict(processes=len(files), instructions=n, executed=sum(1 for x in acc if x))
+        engines[b] = dict(processes=used, instructions=n, executed=sum(1 for x in acc if x))
     per_obj = {}
-    for (obj, sec, off), (h, t, lab) in total.items():
+    for (obj, sec, off, _), (h, t, lab) in total.items():
         o = per_obj.setdefault(obj, dict(instructions=0, executed=0, labels={}))
         o["instructions"] += 1
         o["executed"] += h
@@ -132,8 +139,8 @@ def report(hdir, outp=None, bindir=None):
     res = dict(engines=engines, instructions=len(total), executed=sum(v[0] for v in total.values()), objects={})
     gaps = {}       # obj -> [(n, label, first instruction text)]: maximal runs of consecutive never-executed instructions
     run = None
-    for (obj, sec, off) in sorted(total):
-        h, t, lab = total[(obj, sec, off)]
+    for (obj, sec, off, nt) in sorted(total):
+        h, t, lab = total[(obj, sec, off, nt)]
         if h or (run and (run[0], run[1]) != (obj, sec)):
             if run:
                 gaps.setdefault(run[0], []).append((run[4], run[2], run[3]))
